@@ -20,6 +20,9 @@ KEYS = {
     'size - 50': ('num', lambda e: e['size'] - 50),
     'day(modified)': ('num', lambda e: time.gmtime(e['mtime']).tm_mday),
     'year(modified)': ('num', lambda e: time.gmtime(e['mtime']).tm_year),
+    'is_dir': ('str', lambda e: 'true' if e['isdir'] else 'false'),
+    'mode': ('str', lambda e: stat.filemode(e['mode'])),
+    'upper(name)': ('str', lambda e: e['name'].upper()),
     '1000 - size': ('num', lambda e: 1000 - e['size']),          # literal on the left: written by position only
 }
 POSITIONAL_ONLY = {'1000 - size'}
@@ -30,8 +33,8 @@ def ord_tree():
     directories, hard-link counts 1,2,3,11, mtimes one second apart across a year end."""
     y = 1577836800  # 2020-01-01 00:00:00 UTC
     t = {
-        'a.txt': F(5, mtime=y - 1), 'b.txt': F(9, mtime=y), 'c.rs': F(10, mtime=y + 1), 'dd.rs': F(100, mtime=y - 1),
-        'e': F(1000, mtime=y + 86400, uid=1000), 'f10': F(10, mtime=y + 2, uid=100), 'g': F(9, mtime=y),
+        'a.txt': F(5, mtime=y - 1), 'b.txt': F(9, mtime=y), 'c.rs': F(10, mtime=y + 1, mode=0o600), 'dd.rs': F(100, mtime=y - 1),
+        'e': F(1000, mtime=y + 86400, uid=1000, mode=0o755), 'f10': F(10, mtime=y + 2, uid=100), 'g': F(9, mtime=y, mode=0o4711),
         'sub': D({'a.txt': F(5, mtime=y - 2), 'b.txt': F(100, mtime=y + 1, uid=9), 'zz': F(0, mtime=y)}, mtime=y + 5),
         'sub2': D({'a.txt': F(1000, mtime=y - 1), 'k.md': F(9, mtime=y + 3, uid=100)}, mtime=y - 86400),
         'h1': F(7, mtime=y), 'h2': {'t': 'f', 'link': 'h1'}, 'h3': {'t': 'f', 'link': 'h1'},
@@ -55,7 +58,7 @@ def entries(root, prefix='.'):
             rel = os.path.relpath(p, root)
             res.append({'name': n, 'path': prefix + '/' + rel, 'ext': n.rsplit('.', 1)[1] if '.' in n[1:] else '',
                         'size': st.st_size, 'nlink': st.st_nlink, 'uid': st.st_uid, 'mtime': int(st.st_mtime),
-                        'isdir': stat.S_ISDIR(st.st_mode)})
+                        'isdir': stat.S_ISDIR(st.st_mode), 'mode': st.st_mode})
     return res
 
 
